@@ -501,7 +501,8 @@ FIELD_NAMES = ["a", "b", "value", "x1", "my_field", "temperature", "f_", "_g", "
 CONST_NAMES = ["A", "B", "MAX", "LIMIT_1", "K", "ZERO", "X", "Y", "FOO_BAR", "C9", "N", "M", "lower_const"]
 DEF_NAMES = ["Alpha", "Beta", "Gamma", "Delta", "Msg", "Zeta", "Kappa", "Omega", "Type1", "Foo", "Bar", "Node", "abc", "Zulu"]
 COMMENTS = [" hello", "no space", "  two spaces", "", " ", " trailing blanks  ", " has # hash", "\tTab", " @sealed", " uint8 x", " ---",
-            " The quick brown fox", "#", " a = b", "\t", " x\ty"]
+            " The quick brown fox", "#", " a = b", "\t", " x\ty",
+            " #1 of 3", " ## Heading", " # commented-out", "##", "# ", " #", "  # x", "#x"]
 
 
 def T(*parts) -> list:
